@@ -39,6 +39,8 @@ Compare(e, i) ==
 
 \* scenario feature that explains a refusal of the whole file (signature only)
 FailCause(m) == IF \E j \in 1..Len(m.exp) : m.exp[j].c.reqh = "latin1_value" THEN "non_utf8_header_value"
+                ELSE IF \E j \in 1..Len(m.exp) : m.exp[j].c.respb \in {"invalid_utf8_declared", "invalid_utf8_html"}
+                     THEN "text_body_invalid_for_charset"
                 ELSE "no_unusual_input"
 
 Clause(m, ev) ==
